@@ -346,7 +346,7 @@ pub fn run(opts: &Opts) {
     }
     let mut rng = Rng::new(opts.seed);
     let base = scratch_dir(&opts.out, "c20");
-    let cases = if opts.thorough() { 150 } else { 14 } * opts.scale as usize;
+    let cases = if opts.thorough() { 90 } else { 8 } * opts.scale as usize;
     for i in 0..cases {
         node_case(&mut out, &mut rng, &base, i, 45);
     }
